@@ -65,11 +65,20 @@ Exec::~Exec()
 	rm_rf(sb.root);
 }
 
+std::string verif_dir()
+{
+	const char* e = getenv("SNAPSIM_VERIF");
+	return e ? e : "/verif";
+}
+
 void Exec::violation(const std::string& prop, const std::string& cls, const std::string& msg, const Json& focus)
 {
 	Violation v;
 	v.prop = prop;
 	v.cls = cls;
+	// a family may claim the findings of the oracles of another property as its own (golden: C01 oracles on reference arrays)
+	auto rm = vars.find("remap_" + prop);
+	if (rm != vars.end() && rm->second.type == Json::STR) { v.prop = rm->second.s; v.cls = prop + "-" + cls; }
 	v.msg = msg;
 	v.op_index = cur_op;
 	v.focus = focus;
